@@ -215,7 +215,7 @@ def real_l4(cfg, inp):
             ps = mokapot.read_pin(p, max_workers=1)[0]
             old = (C.CONFIDENCE_CHUNK_SIZE, C.peps_from_scores)
             C.CONFIDENCE_CHUNK_SIZE = int(inp["confidence_chunk"])
-            C.peps_from_scores = lambda s, t, a="qvality": np.full(len(s), 0.5)
+            C.peps_from_scores = __import__("checks.conflib", fromlist=["x"]).real_pep_stub
             try:
                 mokapot.assign_confidence([ps], max_workers=1, scores=[np.array([float(x) for x in coll["scores"]])], descs=[True], dest_dir=Path(d) / "out", prefixes=[None], decoys=True)
             except Exception as ex:
